@@ -46,15 +46,22 @@ func NewTCPGroupCtl(portManager *ports.Manager) *TCPGroupCtl {
 func (tgc *TCPGroupCtl) Listen(proxyName string, group string, groupKey string,
 	addr string, port int,
 ) (l net.Listener, realPort int, err error) {
-	tgc.mu.Lock()
-	tcpGroup, ok := tgc.groups[group]
-	if !ok {
-		tcpGroup = NewTCPGroup(tgc)
-		tgc.groups[group] = tcpGroup
-	}
-	tgc.mu.Unlock()
+	for {
+		tgc.mu.Lock()
+		tcpGroup, ok := tgc.groups[group]
+		if !ok {
+			tcpGroup = NewTCPGroup(tgc)
+			tgc.groups[group] = tcpGroup
+		}
+		tgc.mu.Unlock()
 
-	return tcpGroup.Listen(proxyName, group, groupKey, addr, port)
+		l, realPort, err = tcpGroup.Listen(proxyName, group, groupKey, addr, port)
+		if err == errGroupClosed {
+			// the last member left between the lookup and the join: use a fresh group
+			continue
+		}
+		return
+	}
 }
 
 // RemoveGroup remove TCPGroup from controller
@@ -76,6 +83,7 @@ type TCPGroup struct {
 	tcpLn    net.Listener
 	lns      []*TCPGroupListener
 	ctl      *TCPGroupCtl
+	closed   bool
 	mu       sync.Mutex
 }
 
@@ -94,6 +102,9 @@ func NewTCPGroup(ctl *TCPGroupCtl) *TCPGroup {
 func (tg *TCPGroup) Listen(proxyName string, group string, groupKey string, addr string, port int) (ln *TCPGroupListener, realPort int, err error) {
 	tg.mu.Lock()
 	defer tg.mu.Unlock()
+	if tg.closed {
+		return nil, 0, errGroupClosed
+	}
 	if len(tg.lns) == 0 {
 		// the first listener, listen on the real address
 		realPort, err = tg.ctl.portManager.Acquire(proxyName, port)
@@ -170,7 +181,8 @@ func (tg *TCPGroup) CloseListener(ln *TCPGroupListener) {
 			break
 		}
 	}
-	if len(tg.lns) == 0 {
+	if len(tg.lns) == 0 && !tg.closed {
+		tg.closed = true
 		close(tg.acceptCh)
 		tg.tcpLn.Close()
 		tg.ctl.portManager.Release(tg.realPort)
